@@ -127,15 +127,28 @@ func runC03(c *eng.Ctx) {
 		getFirst := p.Method(pkgQueue, "TaskQueue", "GetFirst")
 		if len(gl) == 1 {
 			var taskVar *types.Var
+			var taskArg ast.Expr
 			for _, s := range p.Sites(handler) {
 				if s.InLit == gl[0] && len(s.Call.Args) == 1 {
 					taskVar, _ = eng.SelObj(info, s.Call.Args[0]).(*types.Var)
+					taskArg = s.Call.Args[0]
 				}
 			}
 			ok := false
 			if taskVar != nil {
-				as := eng.AssignedExprs(info, gl[0].Lit.Body, taskVar)
-				ok = len(as) == 1 && isCallTo(info, as[0], waitFor)
+				// every value the variable can hold comes from waitForTask (nil: the stop signal, handed over by a helper)
+				nwait := 0
+				ok = true
+				for _, src := range valueSources(info, gl[0].Lit.Body, taskArg, 5) {
+					switch {
+					case isCallTo(info, src, waitFor):
+						nwait++
+					case eng.IsNil(info, src):
+					default:
+						ok = false
+					}
+				}
+				ok = ok && nwait == 1
 			}
 			r3.Check(ok, start.Key+"$worker task", start.Decl.Pos(), "Handler(t) with t := waitForTask(...) only", "the task handed to the handler is not (only) the one returned by waitForTask")
 		}
